@@ -526,6 +526,60 @@ fn uniq(e: Elem, c: u64) -> u64 {
     }
 }
 
+/// Small set of edge values per element kind (the (old, new) pair grid runs over its square).
+pub fn specials(e: Elem) -> Vec<u64> {
+    match e {
+        Elem::Bool => vec![0, 1],
+        Elem::F32 => vec![0x0000_0000, 0x8000_0000, 0x3F80_0000, 0xBF80_0000, 0x7FC0_0000, 0x7FC0_1234, 0x7FA0_0001, 0x7F80_0000, 0xFF80_0000,
+                          0x7F7F_FFFF, 0x0000_0001, 0x3F80_0001],
+        Elem::F64 => vec![0x0000_0000_0000_0000, 0x8000_0000_0000_0000, 0x3FF0_0000_0000_0000, 0xBFF0_0000_0000_0000, 0x7FF8_0000_0000_0000,
+                          0x7FF8_0000_0000_1234, 0x7FF4_0000_0000_0001, 0x7FF0_0000_0000_0000, 0xFFF0_0000_0000_0000, 0x7FEF_FFFF_FFFF_FFFF,
+                          0x0000_0000_0000_0001, 0x3FF0_0000_0000_0001],
+        _ => {
+            let mut r = Rng::new(0, "specials", 0);
+            (0..6).map(|i| gen_scalar_bits(e, &mut r, Cls::Lattice(i))).collect()
+        }
+    }
+}
+
+/// The systematic part: for every single-lane write path x lane x (old, new) pair of edge values, a two-step history
+/// (whole-value write, then the single-lane write); and for every whole-value write path x lane x edge value a one-step
+/// history. Guarantees the pair grid instead of leaving it to sampling.
+pub fn grid_histories<T: Paths>() -> Vec<Vec<Step>> {
+    let n = T::N;
+    let e = T::E::KIND;
+    let sp = specials(e);
+    let base: Vec<u64> = (0..n).map(|i| uniq(e, 600 + 6 * i as u64)).collect();
+    let wp = T::wpaths();
+    let whole: Vec<WPath> = wp
+        .iter()
+        .copied()
+        .filter(|p| matches!(p, WPath::New | WPath::FromArray | WPath::FromArrTrait | WPath::FromTuple | WPath::FreeFn | WPath::FromSlice | WPath::AsMutWhole | WPath::FromVec4))
+        .collect();
+    let single: Vec<WPath> = wp.iter().copied().filter(|p| matches!(p, WPath::Field | WPath::IndexMut | WPath::AsMutElem | WPath::With | WPath::Set)).collect();
+    let mut out = Vec::new();
+    let first_whole = whole[0];
+    for lane in 0..n {
+        for &old in &sp {
+            let mut v0 = base.clone();
+            v0[lane] = old;
+            for &w in &whole {
+                let (vals, off) = if w == WPath::FromSlice { let mut v = vec![uniq(e, 900)]; v.extend(&v0); v.push(uniq(e, 901)); (v, 1) } else { (v0.clone(), 0) };
+                out.push(vec![Step::Write { path: w, lane, vals, off }]);
+            }
+            for &p in &single {
+                for &new in &sp {
+                    out.push(vec![
+                        Step::Write { path: first_whole, lane, vals: v0.clone(), off: 0 },
+                        Step::Write { path: p, lane, vals: vec![new], off: 0 },
+                    ]);
+                }
+            }
+        }
+    }
+    out
+}
+
 pub fn gen_history<T: Paths>(seed: u64, ti: usize, hi: u64, with_faults: bool) -> Vec<Step> {
     let mut rng = Rng::new(seed, "c17-history", (ti as u64) << 40 | hi);
     let n = T::N;
@@ -534,11 +588,20 @@ pub fn gen_history<T: Paths>(seed: u64, ti: usize, hi: u64, with_faults: bool) -
     let fault_rate = if with_faults { rng.range(1, 3) } else { 0 }; // of 10
     let wp = T::wpaths();
     let mut ctr = 1u64;
+    // mostly values unique within the history; now and then an edge value, so that writes of +0 over -0,
+    // NaN over NaN, MIN over MAX ... occur (a write that is skipped when old == new compares by value)
+    let edge_rate = rng.below(4); // of 16
+    let mut vrng = Rng::new(seed, "c17-values", (ti as u64) << 40 | hi);
     let mut next = |k: usize| -> Vec<u64> {
         (0..k)
             .map(|_| {
                 ctr += 1;
-                uniq(e, ctr)
+                if vrng.below(16) < edge_rate {
+                    let s = specials(e);
+                    s[vrng.below(s.len())]
+                } else {
+                    uniq(e, ctr)
+                }
             })
             .collect()
     };
@@ -837,6 +900,7 @@ impl Stats {
 
 pub struct Entry17 {
     pub name: &'static str,
+    pub grid: fn() -> Vec<Vec<Step>>,
     pub gen: fn(u64, usize, u64, bool) -> Vec<Step>,
     pub exec: fn(&[Step], &mut Stats) -> Option<(usize, String, String)>,
     pub wpaths: &'static [WPath],
@@ -853,7 +917,7 @@ macro_rules! entries17 {
     };
     (@one $v:ident, $T:ident, mat) => {};
     (@one $v:ident, $T:ident, $K:ident) => {
-        $v.push(Entry17 { name: stringify!($T), gen: gen_history::<$T>, exec: execute::<$T>, wpaths: <$T as Paths>::wpaths(), rpaths: <$T as Paths>::rpaths() });
+        $v.push(Entry17 { name: stringify!($T), grid: grid_histories::<$T>, gen: gen_history::<$T>, exec: execute::<$T>, wpaths: <$T as Paths>::wpaths(), rpaths: <$T as Paths>::rpaths() });
     };
 }
 glam_types!(entries17);
@@ -906,17 +970,34 @@ pub fn run(seed: u64, histories: usize, workers: usize, with_faults: bool, types
         sum.faults_fired.insert(k.into(), 0);
         sum.faults_effective.insert(k.into(), 0);
     }
-    let total = ents.len() * histories;
+    // grid histories first (deterministic, independent of the seed), then the seeded ones
+    let grids: Vec<Vec<Vec<Step>>> = ents.iter().map(|e| (e.grid)()).collect();
+    let mut grid_index: Vec<(usize, usize)> = Vec::new();
+    for (ti, g) in grids.iter().enumerate() {
+        for k in 0..g.len() {
+            grid_index.push((ti, k));
+        }
+    }
+    let ng = grid_index.len();
+    sum.extra.insert("grid_histories".into(), json!(ng));
+    let total = ng + ents.len() * histories;
     let mut steps = 0u64;
     let mut dig = util::Digest::default();
+    let histories = histories.max(1);
     util::par_runs(
         total,
         workers,
         |i| {
-            let ti = i / histories;
-            let hi = (i % histories) as u64;
+            let (ti, hi, h) = if i < ng {
+                let (ti, k) = grid_index[i];
+                (ti, 1_000_000 + k as u64, grids[ti][k].clone())
+            } else {
+                let j = i - ng;
+                let ti = j / histories;
+                let hi = (j % histories) as u64;
+                (ti, hi, (ents[ti].gen)(seed, ti, hi, with_faults))
+            };
             let e = &ents[ti];
-            let h = (e.gen)(seed, ti, hi, with_faults);
             let mut st = Stats::default();
             let r = (e.exec)(&h, &mut st);
             let viol = r.map(|(_, class, _)| {
@@ -964,7 +1045,7 @@ pub fn run(seed: u64, histories: usize, workers: usize, with_faults: bool, types
             (st, viol, d.finish(), sample)
         },
         |i, (st, viol, d, sample)| {
-            let e = &ents[i / histories];
+            let e = &ents[if i < ng { grid_index[i].0 } else { (i - ng) / histories }];
             sum.evaluations += 1;
             steps += st.steps;
             dig.push(d);
